@@ -122,11 +122,16 @@ type Spelling struct {
 	// ListRootsFirst (with Heading): the first k roots are written as list items, only the later ones as headings
 	// (after a heading every column-0 item belongs to it, so list roots can only come first)
 	ListRootsFirst int
-	Gaps    []int  // len n+1 (cycled/zero if shorter): 0 nothing, 1 empty line, 2 whitespace-only line, 3 / 4 runs of two / three blank lines
-	CRLF    bool
-	NoFinal bool // no newline after the last line
-	Compact bool // list items written without the blank after the bullet ("-name"): the text is everything after the bullet
+	Gaps           []int // len n+1 (cycled/zero if shorter): 0 nothing, 1 empty line, 2 whitespace-only line, 3 / 4 runs of two / three blank lines
+	CRLF           bool
+	NoFinal        bool // no newline after the last line
+	Compact        bool // list items written without the blank after the bullet ("-name"): the text is everything after the bullet
 }
+
+// ExoticBlanks (gap codes 9...): lines made only of white space other than blank and tab: the ASCII form feed and
+// vertical tab, and every kind of Unicode space (a line is blank when nothing but white space is on it).
+var ExoticBlanks = []string{"\f", "\v", "\u0085", "\u00a0", "\u1680", "\u2000", "\u2003", "\u200a", "\u2028", "\u2029", "\u202f", "\u205f", "\u3000",
+	" \f\t", "\u3000\u3000", "\t\u00a0", "\u3000 ", "  \u3000"}
 
 var Canonical = Spelling{Unit: "  ", Bullets: []byte{'-'}}
 
@@ -162,6 +167,10 @@ func Spell(d []int, names []string, sp Spelling) string {
 			lines = append(lines, " ")
 		case 8:
 			lines = append(lines, "    ")
+		default:
+			if g >= 9 && g-9 < len(ExoticBlanks) {
+				lines = append(lines, ExoticBlanks[g-9])
+			}
 		}
 	}
 	rootNo, underHeading := 0, false
